@@ -76,15 +76,13 @@ def parseParam (w : String) : Option Param :=
     | [] => some (.strArr [])
   | _ => none
 
-/-- `prepare 0 entry_addr=N params=K p1 p2 …` -/
-def parsePrepare (lines : List String) : Nat × List Param :=
-  match lines.find? (·.startsWith "prepare ") with
-  | none => (0, [])
-  | some l =>
+/-- `prepare 0 entry_addr=N params=K p1 p2 … [name=…]`: one per call; only successful ones run -/
+def parsePrepares (lines : List String) : List (Nat × List Param) :=
+  (lines.filter (·.startsWith "prepare 0 ")).map fun l =>
     let ws := words l
     let ea := match ws.find? (·.startsWith "entry_addr=") with
       | some w => (w.drop 11).toString.toNat! | none => 0
-    (ea, (ws.drop 4).filterMap parseParam)
+    (ea, ((ws.drop 4).filter (fun w => !w.startsWith "name=")).filterMap parseParam)
 
 /-- the oracle for the instruction about to run, read from the NEXT trace line -/
 def oracleOf (next : Option String) : Oracle :=
@@ -112,8 +110,13 @@ partial def main (args : List String) : IO UInt32 := do
   | [dumpF, resF, traceF, mem, stack, gcmode, execs] =>
     let dumpLines := (← IO.FS.lines dumpF).toList
     let resLines := (← IO.FS.lines resF).toList
-    let (ea, params) := parsePrepare resLines
-    let md := parseDump dumpLines ea params
+    let preps := parsePrepares resLines
+    let callsMode := execs == "calls"
+    let callList : List (Nat × List Param) :=
+      if callsMode then preps else List.replicate execs.toNat! (preps.headD (0, []))
+    let md0 := parseDump dumpLines 0 []
+    let mut md := md0
+    let mut pending := callList
     let mut vm := Vm.new mem.toNat! stack.toNat! gcmode.toNat!
     let th ← if traceF == "-" then pure none else some <$> IO.FS.Handle.mk traceF .read
     let getL : IO (Option String) := match th with
@@ -123,13 +126,16 @@ partial def main (args : List String) : IO UInt32 := do
     let mut steps : Nat := 0
     let mut diverged : Option String := none
     let mut stop : Option String := none
-    let mut execsLeft := execs.toNat!
+    let mut execsLeft := callList.length
     let mut results : List String := []
     let maxSteps := 200000000
     let mut traceActive := th.isSome
     let mut lastFe := 0
     while execsLeft > 0 ∧ stop.isNone ∧ diverged.isNone do
       let sp0 := vm.sp
+      match pending with
+      | (ea, ps) :: rest => md := { md0 with entryAddr := ea, params := ps }; pending := rest
+      | [] => pure ()
       vm := beginExecute md vm
       -- run until running ≠ 1
       while vm.running == 1 ∧ stop.isNone ∧ diverged.isNone ∧ steps < maxSteps do
@@ -161,7 +167,7 @@ partial def main (args : List String) : IO UInt32 := do
             | .error _ => "?"
           else "-"
         results := results ++ [s!"exec ret={if vm.running == 0 then 0 else 1} sp_before={sp0} sp_after={vm.sp} running={vm.running} exc={vm.exception} result={r}"]
-        if vm.running != 0 then execsLeft := 0 else execsLeft := execsLeft - 1
+        if vm.running != 0 ∧ !callsMode then execsLeft := 0 else execsLeft := execsLeft - 1
     IO.println s!"steps {steps}"
     match diverged with | some d => IO.println s!"DIVERGE {d}" | none => pure ()
     match stop with | some s => IO.println s!"stop {s}" | none => pure ()
